@@ -26,7 +26,8 @@ RULE = ("Hypothesis draws a creation configuration and a reopening configuration
         "Non-trivial = the two configurations differ in exactly one field or only in encoding, or "
         "the key set is not exact; distinct key = (which fields differ, encodings, key-set variant, "
         "path state, populated, yaml removed)."
-        ' The three data directories may be symbolic links to directories elsewhere; the previous store at the same path may have had (and been reopened with) the configuration used for the reopen.')
+        ' The three data directories may be symbolic links to directories elsewhere; the previous store at the same path may have had (and been reopened with) the configuration used for the reopen.'
+        ' Round 9: the properties dictionaries list their keys in any order; hashstore.yaml may have been re-dumped by a YAML library or have lost its tail behind the four pinned values (the creating process died while the default algorithm list was written) - then acceptance is conditional, but an accepted open writes nothing and the same configuration is accepted again by a cold process.')
 ASSUMPTIONS = ["single process; the store path's parent is private to the case"]
 
 GOOD_ALGOS = sorted(common.STORE_ALGOS)
